@@ -173,9 +173,19 @@ def run_case(case):
                 tt, vv = C.call("sample(quad):%s%s" % (g, kw), st.sample, b.syms[s_["name"]], grid=g, **kw)
                 outs_q += [ca.MX(tt), ca.MX(vv)]
         F_q = ca.Function("sq", [obs.view.x, obs.view.p], outs_q) if outs_q else None
+        # quadrature states under DirectCollocation: integrator-grid samples nest into the control-grid samples
+        qdc = [s_ for s_ in spec["states"] if s_.get("quad")] if cls == "DC" else []
+        outs_qdc = []
+        for s_ in qdc:
+            for g in ("control", "integrator"):
+                outs_qdc.append(ca.MX(C.call("sample(quad):%s" % g, st.sample, b.syms[s_["name"]], grid=g)[1]))
+        F_qdc = ca.Function("sqdc", [obs.view.x, obs.view.p], outs_qdc) if outs_qdc else None
         # Stage.sampler takes expressions of t, x, z, u only (no horizon symbols, parameters or variables)
         expr_in_sampler = not E.uses(case["expr"], "t0", "T")
         samp = C.call("sampler", st.sampler, [sym for _, sym, _ in (targets if expr_in_sampler else targets[:-1])])
+        # algebraic variables through the sampler (DirectCollocation): checked at the collocation times
+        ztargets = [(a_["name"], b.syms[a_["name"]], a_["shape"][0]) for a_ in spec.get("algebraics", [])] if cls == "DC" else []
+        samp_z = C.call("sampler(z)", st.sampler, [sym for _, sym, _ in ztargets]) if ztargets else None
     except C.RockitRaised as e:
         res["violations"].append(C.exc_violation(ID, e, "|".join(sig.split("|")[:2])))
         return res
@@ -248,6 +258,20 @@ def run_case(case):
                                       s_["name"], idx, "lie on" if fit <= 1e-8 * scq else "do not lie on", degq, fit, end,
                                       v_7[7 * idx + 7])})
                     return res
+    if F_qdc is not None:
+        vq = F_qdc(w, obs.view.p0)
+        vq = [np.array(v_, dtype=float).reshape(-1) for v_ in (vq if isinstance(vq, (list, tuple)) else [vq])]
+        for j, s_ in enumerate(qdc):
+            v_c, v_i = vq[2 * j], vq[2 * j + 1]
+            if not (np.all(np.isfinite(v_i)) and np.max(np.abs(v_i)) < 1e5):
+                continue
+            res["evals"] += 1
+            res["counters"]["nesting_points"] += len(v_c)
+            if len(v_i) != N * M + 1 or len(v_c) != N + 1 or np.max(np.abs(v_i[::M] - v_c)) > 1e-9 * (1 + np.max(np.abs(v_i))):
+                res["violations"].append({"kind": "nesting", "mech": "C08|grids-do-not-nest|quadrature-state",
+                                          "detail": "%s (DirectCollocation): every M-th integrator-grid sample %s, control-grid samples %s" % (
+                                              s_["name"], C.short(v_i[::M]), C.short(v_c))})
+                return res
     ph = obs.rb(w)
     ref = model.RefModel(spec, ph)
     tc = ph["tc"]
@@ -415,6 +439,32 @@ def run_case(case):
                                           "detail": "sampler(e) at t=%.6g gives %.9g, e(sampled ingredients) %.9g" % (
                                               t, got_e[qi], want)})
                 return res
+    # (iv-b) algebraic variables: sampler(z)(gist, t) at the collocation times = sample(z, grid='integrator_roots')
+    if samp_z is not None and "tr" in ph:
+        tr_all = np.asarray(ph["tr"], dtype=float).reshape(-1)
+        ti_pts = vals[2].reshape(-1)
+        # (a radau end point is also the start of the next step, where z may jump: left out)
+        keep = [i_ for i_, t_ in enumerate(tr_all) if np.min(np.abs(ti_pts - t_)) > 1e-9 * (1 + abs(t_))]
+        if keep:
+            try:
+                outz = samp_z(gist, tr_all[keep])
+                outz = [outz] if not isinstance(outz, (list, tuple)) else outz
+            except Exception as e:  # noqa
+                res["violations"].append(C.exc_violation(ID, C.RockitRaised("sampler(z) call", e), cls))
+                return res
+            for zi_, (nm, sym, dim) in enumerate(ztargets):
+                got = np.array(outz[zi_], dtype=float).reshape(len(keep), dim)
+                want = np.asarray(ph["zr:" + nm], dtype=float).reshape(len(tr_all), dim)[keep]
+                res["evals"] += 1
+                res["counters"]["sampler_z_points"] = res["counters"].get("sampler_z_points", 0) + len(keep)
+                bad = np.abs(got - want) > 1e-7 * (1 + np.abs(want))
+                if not np.all(np.isfinite(got)) or np.any(bad):
+                    j_ = int(np.argmax(np.any(bad | ~np.isfinite(got), axis=1)))
+                    res["violations"].append({
+                        "kind": "sampler-z", "mech": "C08|sampler-of-algebraic-differs-from-collocation-values",
+                        "detail": "%s at the collocation time t=%.6g (root %d of %d): sampler %s, sample(grid='integrator_roots') %s" % (
+                            nm, tr_all[keep][j_], keep[j_], len(tr_all), C.short(got[j_]), C.short(want[j_]))})
+                    return res
     # sol.sampler: the same function bound to the solver's decision vector
     if case.get("sol_sampler") and m.get("intg") in (None, "rk", "expl_euler") and t_hi > t_lo:
         try:
